@@ -31,11 +31,18 @@ RULE = ('seeded conforming tet or hex meshes from harness/meshgen.gen_geometric 
         'storage order); non-trivial = the mesh has at least one interior facet; distinct = distinct (connectivity, '
         'ids, storage order, coordinates). Jittered hex meshes (non-planar faces) form the labelled stream '
         '`hex-warped`: incidence structure and signs are checked there, the two metric identities are not (they are '
-        'stated for planar faces / need the vector area)')
+        'stated for planar faces / need the vector area); stream `ids-pow2` (inside the quantifier): the same generator with node ids '
+        'of meshgen.random_ids style "pow2" (parts offset by multiples of 2^o, equal local indices in several parts, max id + 1 = '
+        '2^k; (o, k) from (20,22) (18,23) (16,24) (20,23) (13,17) (10,18) (4,20) (20,31)); stream `int-coords` (inside the '
+        'quantifier): meshes all of whose coordinates are integers handed to femio as an int64 node array - `voxel` (axis-aligned, '
+        'cell sizes 1 / 3 / 5 so that cell and facet centres are not integers) and `int-affine` (4 x the generator\'s affine image), '
+        'a quarter of them with pow2 ids')
 ASSUMPTIONS = [
     'cells are convex and non-overlapping (generator: positive affine images of bricks, jitter accepted only if every '
     'face-fan sub-tet stays positive); the model decides `faceDeterminedB`, `ownNodesB`, `distinctKeysB`, '
     '`mirrorConformingB` per mesh',
+    'the dtype of the node array (float64 / int64) is a storage detail of a conforming mesh: integer-coordinate meshes are inside '
+    'the quantifier and are built directly with an int64 FEMAttribute (not through the float-only meshgen.to_femio)',
 ]
 TRUSTED = ['C12: harness/meshgen.py face tables are the oracle\'s independent definition of "own faces of a cell"']
 
